@@ -401,7 +401,7 @@ fn gen_text(r: &mut Rng, lang: &str, stats: &mut BTreeMap<&'static str, usize>) 
 }
 
 /// languages whose model is wired into the Lean driver
-const ACTIVE: &[&str] = &["cypher", "sparql"];
+const ACTIVE: &[&str] = &["cypher", "sparql", "graphql", "gremlin"];
 
 pub fn generate(seed: u64, cases: usize, out: &mut Vec<String>) {
     let mut r = Rng::new(seed ^ 0x6c657832);
